@@ -17,7 +17,7 @@ mod proofs {
                 const TBITS: usize = <$t>::BITS as usize;
                 let input: [$t; 1024] = kani::any();
                 let mut packed = [0 as $t; 1024 * W / TBITS];
-                let mut out = [0 as $t; 1024];
+                let mut out: [$t; 1024] = kani::any();   // a DIRTY output buffer: unpack must overwrite every element (width 0 included)
                 unsafe {
                     <$t>::unchecked_pack(W, &input, &mut packed);
                     <$t>::unchecked_unpack(W, &packed, &mut out);
